@@ -12,6 +12,8 @@ Definition mat := (vec * vec * vec)%type.
 Definition nconst_Q (n d : Z) : R := IZR n / IZR d.
 Definition nsqrt (x : R) : R := sqrt x.
 Definition nabs (x : R) : R := Rabs x.
+(* x ** (1/3.): real cube root of a positive number *)
+Definition ncbrt (x : R) : R := Rpower x (/ 3).
 Definition nltb (a b : R) : bool := if Rlt_dec a b then true else false.
 Definition nleb (a b : R) : bool := if Rle_dec a b then true else false.
 Definition ngtb (a b : R) : bool := nltb b a.
